@@ -397,10 +397,16 @@ def full_programs(draw, switches=frozenset(), max_lines=10, operand_depth=1, wit
             if s[0] == "rem":
                 stmts[q] = ["let", ["var", "A"], ["num", "1", 1], False]
         lines.append([ln, stmts])
+    # a READ somewhere + an empty DATA item switches on the tool's READ/DATA patching (string temporaries, ecb_read_filter)
+    if "read" in fg.kinds and draw(st.booleans()):
+        fg.kinds.add("read_with_empty_data_item")
+        tail_ln = nums[-1] + step if not open_loops else nums[-1] + 2 * step
+        lines.append([tail_ln + step, [["data", [["e"], ["n", "1", 1], ["q", "Z"]]]]])
     # close loops that are still open so FOR/NEXT stay lexically nested
     if open_loops:
         last = nums[-1] + step
         lines.append([last, [["next", [v]] for v in reversed(open_loops)]])
+        lines.sort(key=lambda l: l[0])
     meta = {"kinds": sorted(fg.kinds), "excluded": dict(g.excluded), "uses_hbuff": fg.uses_hbuff, "n_conv": g.n_conv,
             "nums": nums, "n_onerr": n_onerr, "n_onbrk": n_onbrk}
     return {"prog": lines, "_meta": meta}
